@@ -62,6 +62,15 @@ Definition name_if_lambda (st : store) (v : value) (x : string) : store :=
   | VLam id _ _ _ => match lam_name st id with None => set_nth st id (Some x) | Some _ => st end
   | _ => st
   end.
+(* ... and only the assignment whose right-hand side CREATED the lambda names it (repo fix of F52,
+   known/C02.json): `if let Value::Lambda(p) = val && p.index() >= cells_before`, cells_before being the heap
+   length taken before the value expression is evaluated.  Naming a function that existed before would change
+   what its other holders observe (the self reference shadows a name the body resolves dynamically). *)
+Definition name_if_created (n0 : nat) (st : store) (v : value) (x : string) : store :=
+  match v with
+  | VLam id _ _ _ => if Nat.leb n0 id then name_if_lambda st v x else st
+  | _ => st
+  end.
 Definition fresh_lambda (st : store) (args : list lamarg) (body : expr) (scope : frame)
   : value * store :=
   (VLam (Datatypes.length st) args body scope, (st ++ [None])%list).
